@@ -127,9 +127,10 @@ def cases(seed, tier):
         "suspenders": {"s0": {"cls": "SuspendBoolHigh", "signal": "sigS", "kwargs": {"sleep": rng.choice([0, 0.5])}}},
         "script": [{"do": "install_suspender", "sus": "s0"}, {"do": "call", "plan": body, "main": True}],
     }
+    retarget = generic.second_suspender(case, ID, seed)
     dry, dv, n = generic.dry_run(case)
     yield case
-    ci = 1
+    ci = generic.main_index(case)
     K = 12 if tier == "quick" else 24
     for j in range(K):
         c = copy.deepcopy(case)
@@ -137,7 +138,7 @@ def cases(seed, tier):
         inj = gen.gen_injections(rng, n, kinds=["pause", "pause", "trip"], k=rng.choice([1, 1, 2, 3]), slack=2)
         for i in inj:
             if i["do"] == "trip":
-                i["args"] = generic.trip_args(rng)
+                i["args"] = retarget(generic.trip_args(rng))
         c["script"][ci]["inject"] = inj
         c["script"][ci]["decisions"] = [{"do": "resume"} for _ in range(5)]
         c["script"][ci]["final"] = "resume"
